@@ -16,7 +16,7 @@ F(name, size, v, age, kind) == [name |-> name, size |-> size, v |-> v, age |-> a
 Base(threads, payload, chunk, order, delete, oneshot, files) ==
   [threads |-> threads, payload |-> payload, chunk |-> chunk, order |-> order, delete |-> delete,
    attempts |-> 2, pollmax |-> 2, minage |-> 0, hidden |-> FALSE, include |-> <<>>, ignore |-> <<>>,
-   oneshot |-> oneshot, files |-> files, steps |-> <<>>, faults |-> <<>>, settle |-> 0, pollms |-> 5, deldelay |-> 0]
+   oneshot |-> oneshot, files |-> files, steps |-> <<>>, faults |-> <<>>, settle |-> 0, pollms |-> 5, deldelay |-> 0, prestage |-> <<>>]
 
 Files2 == << F("p.dat", 20, 1, 100, ""), F("d/q.dat", 37, 1, 90, "") >>
 Files3 == << F("p.dat", 20, 1, 100, ""), F("d/q.dat", 5, 1, 90, ""), F("r.dat", 33, 1, 80, "") >>
@@ -67,6 +67,18 @@ Crashes ==
                      !.steps = << [at |-> i, op |-> "crash"], [at |-> i2, op |-> "crash"] >>] :
                     i2 \in { i + 3, i + 9 } } : i \in 1..MaxAt }
 
+\* ---- every partial-reception state of a 64-byte file in chunks of 8: the sender crashes after it
+\* persisted its cache and before it queued anything, and the receiver holds the chunks of S (each
+\* recorded by a request of its own, so with gaps and not merged) when the sender restarts (C07)
+RECURSIVE SortedSeq(_)
+SortedSeq(S) == IF S = {} THEN <<>> ELSE LET x == CHOOSE x \in S : \A y \in S : x <= y IN <<x>> \o SortedSeq(S \ {x})
+RangesOf(S) == [j \in 1..Cardinality(S) |-> << 8 * SortedSeq(S)[j], 8 * SortedSeq(S)[j] + 8 >>]
+Recover ==
+  { [Base(t, 16, 8, "fifo", d, FALSE, << F("p.dat", 64, 1, 100, "") >>) EXCEPT
+        !.steps = << [at |-> 0, on |-> "push", k |-> 1, op |-> "crash"] >>,
+        !.prestage = << [name |-> "p.dat", held |-> RangesOf(S)] >>] :
+      t \in {1, 2}, d \in BOOLEAN, S \in (SUBSET (0..7)) \ {{}} }
+
 \* ---- source files that change while queued / sent / after confirmation (C02, C17)
 Changes ==
   { [Base(t, 16, 8, "fifo", d, FALSE, Files2) EXCEPT
@@ -109,6 +121,7 @@ Scenarios ==
     [] Family = "stops" -> Stops
     [] Family = "stops2" -> Stops2
     [] Family = "crashes" -> Crashes
+    [] Family = "recover" -> Recover
     [] Family = "changes" -> Changes
     [] Family = "changes2" -> Changes2
     [] Family = "changes3" -> Changes3
